@@ -59,8 +59,14 @@ RULES = {
     "device index, a count - is never tested by truthiness: `if existing.pipeline_stage and stage != existing.pipeline_stage` treats a "
     "node already assigned to stage 0 as one without a stage, so a conflicting `shard(..., pipeline_stage=1)` is accepted and moves "
     "the node instead of being rejected without effect",
+    "R15": "every number of an annotation request is checked before it is stored: in the public methods of Node and Model that record "
+    "annotations (a call of a device-annotation constructor - ShardingSpec, ShardedDim, SimpleShardedDim, NodeDeviceConfiguration, "
+    "ModelConfiguration - that a parameter flows into), each parameter declared as a number or a sequence of numbers (`int`, `int | None`, "
+    "`Sequence[int]`) is read - itself, through a local derived from it or as the loop variable over it - by a test that governs a `raise`: "
+    "what the library's own device-configuration check would report afterwards (a device index outside range(num_devices), an axis out of "
+    "range, fewer than one shard, a negative stage) is refused by the request instead of being recorded",
 }
-FLOORS = {"R1": 12, "R2": 4, "R3": 4, "R4": 4, "R5": 4, "R6": 6, "R7": 2, "R8": 3, "R9": 2, "R10": 10, "R11": 10, "R12": 1, "R13": 3, "R14": 1}
+FLOORS = {"R1": 12, "R2": 4, "R3": 4, "R4": 4, "R5": 4, "R6": 6, "R7": 2, "R8": 3, "R9": 2, "R10": 10, "R11": 10, "R12": 1, "R13": 3, "R14": 1, "R15": 4}
 EXPLANATION = (
     "Structural checks on the record classes, on every writer of a node's input/output tuples, on the serializer's "
     "name derivation, the C06 write-before-reject analysis for the annotation API, and ordering (dominator) checks in "
@@ -520,7 +526,72 @@ def rule_r14(ctx):
     ctx.require(n_f >= 30, f"only {n_f} functions found in the annotation API")
 
 
+_ANNOTATION_CTORS = {"ShardingSpec", "ShardedDim", "SimpleShardedDim", "NodeDeviceConfiguration", "ModelConfiguration"}
+
+
+def rule_r15(ctx):
+    import re
+
+    n = 0
+    for f in _annotation_api(ctx.repo):
+        if f.owner_class is None or f.owner_class.name not in ("Node", "Model") or f.name.startswith("_") or f.module.name != CORE:
+            continue
+        a = getattr(f.node, "args", None)
+        if a is None:
+            continue
+        ctors = [c for c in calls_in(f) if (dotted_of(c.func) or "").split(".")[-1] in _ANNOTATION_CTORS]
+        if not ctors:
+            continue
+        nums = [x.arg for x in a.posonlyargs + a.args + a.kwonlyargs if x.annotation is not None
+                and re.fullmatch(r"(int|int \| None|Optional\[int\]|Sequence\[int\]|Iterable\[int\]|tuple\[int, \.\.\.\]|list\[int\])", norm(x.annotation))]
+        for p_ in nums:
+            # names derived from the parameter: locals assigned from it, loop variables over it (transitively)
+            derived = {p_}
+            for _ in range(4):
+                for x in own_nodes(f.node):
+                    if isinstance(x, (ast.Assign, ast.AnnAssign)) and getattr(x, "value", None) is not None and any(isinstance(y, ast.Name) and y.id in derived for y in ast.walk(x.value)):
+                        for t in (x.targets if isinstance(x, ast.Assign) else [x.target]):
+                            derived |= {y.id for y in ast.walk(t) if isinstance(y, ast.Name)}
+                    elif isinstance(x, (ast.For, ast.comprehension)) and any(isinstance(y, ast.Name) and y.id in derived for y in ast.walk(x.iter)):
+                        derived |= {y.id for y in ast.walk(x.target) if isinstance(y, ast.Name)}
+            stored = any(isinstance(y, ast.Name) and y.id in derived for c in ctors for y in ast.walk(c))
+            if not stored:
+                continue
+            n += 1
+            checked = False
+            for r in (x for x in own_nodes(f.node) if isinstance(x, ast.Raise)):
+                q = getattr(r, "_parent", None)
+                while q is not None and q is not f.node:
+                    if isinstance(q, (ast.If, ast.While)) and any(isinstance(y, ast.Name) and y.id in ({p_} | (derived - {"self"})) for y in ast.walk(q.test)):
+                        # the test has to read the parameter's own value chain, not merely a name assigned after mixing it with others
+                        if any(isinstance(y, ast.Name) and y.id == p_ for y in ast.walk(q.test)) or any(
+                                isinstance(y, ast.Name) and y.id in _loop_vars_over(f, p_) for y in ast.walk(q.test)):
+                            checked = True
+                    q = getattr(q, "_parent", None)
+            ctx.check("R15", f"{f.local}: `{p_}` is checked before it is recorded", checked, f, f.node,
+                      f"`{p_}` reaches the annotation that {f.local} records ({', '.join(sorted({(dotted_of(c.func) or '').split('.')[-1] for c in ctors}))}) and no test that governs a `raise` "
+                      f"reads it: a request with a value the library's own device-configuration check rejects (a device index outside range(num_devices)) is accepted and recorded - the "
+                      "check then reports the model although every annotation went through the public API",
+                      how="numeric parameters that flow into a device-annotation constructor × tests enclosing the raise statements of the method (the parameter itself or the loop variable over it)",
+                      construct=f"{p_} recorded unchecked")
+    ctx.require(n >= 4, f"only {n} numeric parameters of annotation requests found")
+
+
+def _loop_vars_over(f, p_):
+    out = set()
+    names = {p_}
+    for _ in range(3):
+        for x in own_nodes(f.node):
+            if isinstance(x, ast.Assign) and any(isinstance(y, ast.Name) and y.id in names for y in ast.walk(x.value)) and isinstance(x.value, (ast.Name, ast.Call)) \
+                    and (isinstance(x.value, ast.Name) or (dotted_of(x.value.func) in ("tuple", "list", "sorted", "set", "frozenset") and len(x.value.args) == 1)):
+                names |= {t.id for t in x.targets if isinstance(t, ast.Name)}
+            if isinstance(x, (ast.For, ast.comprehension)) and isinstance(x.iter, ast.Name) and x.iter.id in names:
+                out |= {y.id for y in ast.walk(x.target) if isinstance(y, ast.Name)}
+    return out
+
+
 def run(ctx):
+    rule_r15(ctx)
     rule_r14(ctx)
     from ..shared import rule_s17
 
